@@ -2,7 +2,7 @@ from .common import COMMON_ASSUME
 
 CFG = {
     "props_module": "RpmVerif.Props.C03",
-    "required_theorems": ["RpmVerif.C03.digests_iff", "RpmVerif.C03.digests_first_failure", "RpmVerif.C03.digests_mismatch",
+    "required_theorems": ["RpmVerif.C03.digest_tags_standard", "RpmVerif.C03.digests_iff", "RpmVerif.C03.digests_first_failure", "RpmVerif.C03.digests_mismatch",
                           "RpmVerif.C03.digests_unsupported", "RpmVerif.C03.digests_unsupported_class", "RpmVerif.C03.digests_total",
                           "RpmVerif.C03.model_satisfies_spec", "RpmVerif.C03.raw_ranges", "RpmVerif.C03.recomputeRaw_eq"],
     "trivial_branches": ["parse-err-eof", "parse-err-magic", "parse-err-version", "parse-err-tagtype", "parse-err-offset",
